@@ -3,7 +3,7 @@
    generated types; their composition over nested input types, and the converse (every valid
    assignment is expressible), are evaluated per case (RunVars.prop_c04): `partial`. *)
 From GC Require Import Base Rust Json TypeExpr Heck Naming Enums Schema Query Attrs Codegen Serde
-  Conform RespProofs VarSpec VarProofs.
+  Conform RespProofs Compose VarSpec VarProofs VarCert.
 
 (* the Variables struct of an operation is the struct of `variable_field`s *)
 Theorem C04_variables_struct : forall o op v vs, ro_vars op = v :: vs ->
@@ -62,6 +62,25 @@ Theorem C04_nonnull_never_null : forall env F t n v j,
   ser F env (core (rename t n)) v = Some j -> j <> JNull.
 Proof. exact core_never_null. Qed.
 
+(* COMPOSITION BY CERTIFICATE: for ANY items and type map the checker `vars_ok` accepts, every value of
+   Variables that serialises at all and is `clean` (no catch-all enum variant: known class K11; no
+   JSON null held by a consumer-supplied scalar; f64 holding a number) serialises to a valid
+   `variables` object (VarSpec.valid_variables): declared keys only, input-object keys from the
+   schema with absent members only where nullable, @oneOf with exactly one non-null member, enum
+   values of the schema, null only at nullable positions — through any nesting of lists and of
+   (recursive, boxed) input objects.  The checker runs on the generator model's items per case. *)
+Theorem C04_named_type_valid : forall s env tm, tm_ok s env tm = true ->
+  forall f ln tn, assoc ln tm = Some tn ->
+  forall F v j, clean v = true -> ser F env (RNamed ln) v = Some j -> jdepth j <= f ->
+  vnamed s f tn j = true /\ is_null j = false.
+Proof. exact named_valid_all. Qed.
+
+Theorem C04_variables_valid_partial : forall s env tm vars, vars_ok s env tm vars = true ->
+  forall F v j, clean v = true -> ser F env (RNamed "Variables") v = Some j -> valid_variables s vars j = true.
+Proof. exact variables_valid. Qed.
+
+Print Assumptions C04_named_type_valid.
+Print Assumptions C04_variables_valid_partial.
 Print Assumptions C04_variables_struct.
 Print Assumptions C04_variables_keys.
 Print Assumptions C04_variables_keys_exact.
